@@ -31,10 +31,10 @@ fn in_subset(t: &TypeInfo) -> bool {
     t.run_traits.is_some() || EXTRA.contains(&t.name.as_str())
 }
 
-/// Under Miri the cast traits (thin delegations to the free functions) run on every second
+/// Under Miri the cast traits (thin delegations to the free functions) run on every third
 /// representative type only; all free-function, std and round-trip forms run on the whole subset.
 fn traits_too(i: usize) -> bool {
-    i % 2 == 0
+    i % 3 == 1
 }
 
 fn case_id(t: &TypeInfo, table: u8, form: &str, p: &P) -> String {
@@ -45,7 +45,25 @@ pub fn child(args: &[String]) -> i32 {
     let types = registry();
     println!("MIRI-CHILD-START");
     let (mut cases, mut ops, mut nontrivial, mut fails) = (0u64, 0u64, 0u64, 0u64);
+    // `--shard i n`: this process executes the cases whose running index ≡ i (mod n); `--count`: none
+    let mut shard: (u64, u64) = (0, 1);
+    let mut count_only = false;
+    if args.first().map(|s| s.as_str()) == Some("--shard") {
+        shard = (args.get(1).and_then(|s| s.parse().ok()).unwrap_or(0), args.get(2).and_then(|s| s.parse().ok()).unwrap_or(1).max(1));
+    }
+    if args.first().map(|s| s.as_str()) == Some("--count") {
+        count_only = true;
+    }
+    let mut index = 0u64;
     let mut one = |t: &TypeInfo, table: u8, fm: &crate::meta::FormMeta, p: P| {
+        index += 1;
+        if count_only {
+            cases += 1;
+            return;
+        }
+        if (index - 1) % shard.1 != shard.0 {
+            return;
+        }
         println!("CASE {}", case_id(t, table, fm.name, &p));
         let Some(o) = run_form(t, table, fm, &p) else {
             println!("CHILD-MACHINERY form not executable");
@@ -193,15 +211,32 @@ fn report(c: &mut Collector, r: &ChildRun) {
 }
 
 pub fn parent(ctx: &Ctx, c: &mut Collector) {
-    let r = run_child(ctx, &[]);
-    report(c, &r);
-    if r.started {
-        c.exhaustive(
-            "miri",
-            r.done,
-            "the representative instantiations (every hand-written unsafe impl, every N, component size and alignment class) × all free-function/std/round-trip forms (+ cast traits on every second one) × lengths 0..=N+2 × capacities len..=len+N, executed under Miri",
-        );
+    // warm-up: builds the Miri binary once and counts the planned cases
+    let warm = run_child(ctx, &["--count"]);
+    if !warm.started || !warm.done {
+        report(c, &ChildRun { started: false, ..warm });
+        return;
     }
+    let planned = warm.counts.0;
+    let n = pv::par::threads().clamp(1, 16);
+    let runs: Vec<ChildRun> = pv::par::map_chunks(n, |i| run_child(ctx, &["--shard", &i.to_string(), &n.to_string()]));
+    let mut executed = 0;
+    let mut all_done = true;
+    for r in &runs {
+        report(c, r);
+        executed += r.counts.0;
+        all_done &= r.started && r.done;
+    }
+    if all_done && executed != planned {
+        c.cap_hit(format!("miri shards executed {executed} of {planned} planned cases"));
+        all_done = false;
+    }
+    c.note("miri", json!({"planned_cases": planned, "executed_cases": executed, "shards": n}));
+    c.exhaustive(
+        "miri",
+        all_done,
+        "the representative instantiations (every hand-written unsafe impl, every N, component size and alignment class) × all free-function/std/round-trip forms (+ cast traits on a third of them) × lengths 0..=N+2 × capacities len..=len+N, executed under Miri (Stacked Borrows, alignment, allocation-layout and leak checks) in parallel shards",
+    );
 }
 
 pub fn replay(c: &mut Collector, rep: &Value) {
